@@ -3,11 +3,15 @@ package c17
 import (
 	"regexp"
 	"strconv"
+	"strings"
 
 	"wzverif/internal/kit"
 )
 
-const kfParent = "KF-C17-parent-mutation"
+const (
+	kfParent  = "KF-C17-parent-mutation"
+	kfRunRefs = "KF-C17-run-members-by-reference"
+)
 
 var reOpIdx = regexp.MustCompile(`^op=(\d+) `)
 
@@ -31,7 +35,43 @@ func replayModel(c *Case, n int) *model {
 	return m
 }
 
+// hasRefRuns: the base document has runs with a drawing (a picture of its own) or with field characters /
+// instruction text (the field paragraphs of a generated table of contents).
+func (d *DocSpec) hasRefRuns() bool {
+	return d != nil && (d.Image != nil || d.TOC > 0)
+}
+
 var findings = []kit.Finding[Case]{
+	{
+		ID: kfRunRefs, Clause: "C17.U3.shared",
+		Desc: "the engine's copy of a run (cloneRun) takes over Run.Drawing, Run.FieldChar and Run.InstrText by reference: a document rendered from a document template shares the pictures and field runs of its body with the template's base document and with every other render of it; resizing / re-describing the picture of one rendered document through its exported fields changes the base document and the sibling renders",
+		// Trigger: the failure is the report about exactly these three run members (every other shared place is
+		// reported apart), raised by a render (sequential history) of a template whose chain holds a base
+		// document with a picture of its own or with the field paragraphs of AutoGenerateTOC.
+		Trigger: func(c Case, f kit.Failure) bool {
+			if !strings.Contains(f.Detail, runRefMark) {
+				return false
+			}
+			mm := reOpIdx.FindStringSubmatch(f.Detail)
+			if mm == nil {
+				return false
+			}
+			i, _ := strconv.Atoi(mm[1])
+			if i < 0 || i >= len(c.Ops) || c.Ops[i].K != "render" {
+				return false
+			}
+			v := replayModel(&c, i).cache[c.Ops[i].Name]
+			if v == nil {
+				return false
+			}
+			for _, a := range v.chain() {
+				if a.kind == "doc" && a.doc.hasRefRuns() {
+					return true
+				}
+			}
+			return false
+		},
+	},
 	{
 		ID: kfParent, Clause: "C17.U2",
 		Desc: "loading a template that extends another writes its block contents into the shared parent Template (IsOverridden, Content): afterwards the base renders the child's text, and a sibling (or a template loaded later below the same ancestor) renders blocks of the other child",
